@@ -101,6 +101,18 @@ type Transport struct {
 	YieldOnWrite int32
 
 	closeCalls int64
+	// CloseErr is what Close returns (after closing): a transport whose
+	// close reports a failure, as a TLS connection does when the peer is
+	// gone and the closing alert cannot be written.
+	CloseErr error
+	// EOFOnEmptyRead: a Read with an empty buffer (the library reads the
+	// "body" of a header-only packet that way) reports the terminal
+	// condition when nothing is left, as bytes.Reader and pipe-like
+	// transports do; the default answers (0, nil) like a socket.
+	EOFOnEmptyRead bool
+	// SoftEOFWithData: inside the soft EOF window the read that hands over
+	// the last available bytes already reports (n, io.EOF).
+	SoftEOFWithData bool
 }
 
 func New() *Transport {
@@ -182,6 +194,10 @@ func (t *Transport) Read(p []byte) (int, error) {
 			return 0, ErrClosed
 		}
 		if len(p) == 0 {
+			if t.EOFOnEmptyRead && len(t.chunks) == 0 && t.termArmed {
+				t.termReads++
+				return 0, t.termErr
+			}
 			return 0, nil
 		}
 		if len(t.chunks) > 0 {
@@ -193,6 +209,12 @@ func (t *Transport) Read(p []byte) (int, error) {
 				t.chunks = t.chunks[1:]
 			}
 			t.bytesRead += int64(n)
+			if t.SoftEOFWithData && len(t.chunks) == 0 && !t.termArmed && t.bytesRead >= t.softFrom && t.bytesRead < t.softTo {
+				// the last bytes available for now, handed over together
+				// with "nothing more at the moment"
+				t.softReads++
+				return n, io.EOF
+			}
 			if len(t.chunks) == 0 && t.termArmed && t.termWith {
 				t.termWith = false
 				t.termReads++
@@ -396,7 +418,7 @@ func (t *Transport) Close() error {
 	t.closed = true
 	t.rcond.Broadcast()
 	t.rmu.Unlock()
-	return nil
+	return t.CloseErr
 }
 
 func (t *Transport) CloseCalls() int64 { return atomic.LoadInt64(&t.closeCalls) }
